@@ -82,6 +82,62 @@ pub fn op_num(case: &J) -> J {
       }
     }
   }
+  // `threads: K`: the same items once more from K threads at the same time (each starting at another item); every
+  // result must be the one computed alone above (arithmetic must not depend on what other threads compute)
+  let k = case.get("threads").and_then(|v| v.as_u64()).unwrap_or(0) as usize;
+  if k > 1 {
+    let items: std::sync::Arc<Vec<(String, String, String)>> = std::sync::Arc::new(
+      items
+        .iter()
+        .map(|it| {
+          (
+            it.get(0).and_then(|v| v.as_str()).unwrap_or("").to_string(),
+            it.get(1).and_then(|v| v.as_str()).unwrap_or("0").to_string(),
+            it.get(2).and_then(|v| v.as_str()).unwrap_or("0").to_string(),
+          )
+        })
+        .collect(),
+    );
+    let alone: std::sync::Arc<Vec<String>> = std::sync::Arc::new(rs.iter().map(|j| j.to_string()).collect());
+    let barrier = std::sync::Arc::new(std::sync::Barrier::new(k));
+    let rounds = case.get("rounds").and_then(|v| v.as_u64()).unwrap_or(2) as usize;
+    let mut hs = vec![];
+    for t in 0..k {
+      let (items, alone, barrier) = (items.clone(), alone.clone(), barrier.clone());
+      hs.push(std::thread::spawn(move || {
+        let mut diffs = vec![];
+        let mut checked = 0u64;
+        barrier.wait();
+        let n = items.len();
+        for round in 0..rounds {
+          for j in 0..n {
+            let i = (j + t * 7 + round) % n;
+            if alone[i].contains("\"panic\"") {
+              continue;
+            }
+            let (f, a, b) = &items[i];
+            if let Ok(v) = std::panic::catch_unwind(|| num_one(f, a, b)) {
+              checked += 1;
+              let got = v.to_string();
+              if got != alone[i] && diffs.len() < 3 {
+                diffs.push(json!({"thread": t, "item": [f, a, b], "alone": alone[i], "concurrent": got}));
+              }
+            }
+          }
+        }
+        (diffs, checked)
+      }));
+    }
+    let mut par_diffs = vec![];
+    let mut par_checked = 0u64;
+    for h in hs {
+      if let Ok((d, c)) = h.join() {
+        par_diffs.extend(d);
+        par_checked += c;
+      }
+    }
+    return json!({ "rs": rs, "par_diffs": par_diffs, "par_checked": par_checked });
+  }
   json!({ "rs": rs })
 }
 
